@@ -588,8 +588,8 @@ class Interp:
         self.ncalls = getattr(self, 'ncalls', 0) + 1
         if self.ncalls > self.CALL_BUDGET:
             raise AnalysisError('call budget exceeded analysing %s (%d inlined calls on one path)' % (fi.qual, self.ncalls))
-        if fi in self.callstack and not toplevel:
-            return Unknown('recursion %s' % fi.qual)
+        if not toplevel and self.callstack.count(fi) >= 3:
+            return Unknown('recursion %s' % fi.qual)          # a routine that calls itself is followed three levels deep
         a = fi.node.args
         params = [x.arg for x in a.posonlyargs + a.args]
         env = {}
@@ -2028,7 +2028,7 @@ class Interp:
                     kwargs['**'] = v
             else:
                 kwargs[k.arg] = self.ev(k.value, frame)
-        if isinstance(f, BoundMethod) and isinstance(f.recv, BuiltinRef):
+        if isinstance(f, BoundMethod) and isinstance(f.recv, (BuiltinRef, NTClass)):
             return self.call_method(f.recv, f.name, args, kwargs, node)
         if isinstance(f, BoundMethod) and not isinstance(f.recv, (Tup, DictV, Const)):
             r = self.dom.method(f.recv, f.name, args, kwargs, node)
@@ -2161,6 +2161,8 @@ class Interp:
                 items = b.items
             elif isinstance(b, DictV):
                 items = [k for k, _ in b.entries]
+                if not items and not b.open:
+                    return neg              # nothing is in a dictionary that holds nothing
                 if b.open and not any(i == a for i in items):
                     return None
             elif isinstance(b, Const) and isinstance(b.v, (tuple, list, str)) and isinstance(a, Const):
